@@ -323,6 +323,13 @@ func rewriteGroups(s string) (string, error) {
 				out.Reset()
 				out.WriteString(cur[:b])
 				out.WriteString("/*@old*/(" + strings.TrimSpace(args[0]) + ")")
+			case ch == '(' && ident == "final":
+				if len(args) != 1 {
+					return "", fmt.Errorf("final takes one argument: %q", s)
+				}
+				out.Reset()
+				out.WriteString(cur[:b])
+				out.WriteString("/*@final*/(" + strings.TrimSpace(args[0]) + ")")
 			case ch == '(' && ident == "atHead":
 				if len(args) != 1 {
 					return "", fmt.Errorf("atHead takes one argument: %q", s)
@@ -372,9 +379,17 @@ func misc(x interface{}) int        { return 0 }
 func __appends(s interface{}, x interface{}) {}
 func __appendsAll(s interface{}, xs interface{}) {}
 func sameSeq(a, b []interface{}) bool { return false }
+func sameStr(a, b string) bool { return false }
+func sameHdr(a, b interface{}) bool { return false }
+func distinctBacking(a, b interface{}) bool { return false }
+func mapValuesNonNil(m interface{}) bool { return false }
 func isFresh(x interface{}) bool { return false }
 func mapAt(m interface{}, key interface{}) interface{} { return nil }
 func mapAll(m interface{}) interface{} { return nil }
+func mapHas(m interface{}, key interface{}) bool { return false }
+func disk(path string) int { return 0 }
+func diskOfFile(f interface{}) int { return 0 }
+func pathKey(path string) int { return 0 }
 func __mapStore(m interface{}, key interface{}, v interface{}) {}
 func __mapDelete(m interface{}, key interface{}) {}
 func __copies(dst interface{}, src interface{}, n int) {}
